@@ -761,6 +761,34 @@ def run(chk, repo):
                           "of the parts, __call__ folds the parts in order over the running data. ParallelFilter: "
                           "freq_response = reduce(add); numpoly and denpoly are projections of one and the same "
                           "reduction; __call__ shares args[0] through thub(args[0], len(self)) and adds the outputs")
+    # a filter list is a (mutable) list: nothing computed from its members may be kept on the object, unless every
+    # inherited mutator is overridden to drop it
+    MUTATORS = ("append", "extend", "insert", "pop", "remove", "sort", "reverse", "clear", "__setitem__", "__delitem__",
+                "__iadd__", "__imul__")
+    for cdef in [n for n in ast.walk(mod.tree) if isinstance(n, ast.ClassDef) and n.name in ("FilterList", "CascadeFilter", "ParallelFilter")]:
+        for meth in [m_ for m_ in cdef.body if isinstance(m_, FuncTypes)]:
+            for ifn in [n for n in ast.walk(meth) if isinstance(n, ast.If)]:
+                t_ = unparse(ifn.test)
+                kept = None
+                for st_ in ifn.body:
+                    if isinstance(st_, ast.Assign) and len(st_.targets) == 1 and isinstance(st_.targets[0], ast.Attribute) \
+                            and unparse(st_.targets[0].value) == "self" and any(
+                                isinstance(x, ast.Name) and x.id == "self" for x in ast.walk(st_.value)):
+                        a_ = st_.targets[0].attr
+                        if t_ in ("not hasattr(self, %r)" % a_, "self.%s is None" % a_, "getattr(self, %r, None) is None" % a_,
+                                  "not self.%s" % a_, "%r not in self.__dict__" % a_):
+                            kept = (a_, st_)
+                if kept is None:
+                    continue
+                attr_, st_ = kept
+                drops = [m2.name for m2 in cdef.body if isinstance(m2, FuncTypes) and m2.name in MUTATORS and any(
+                    (isinstance(x, (ast.Delete, ast.Assign)) and ("self.%s" % attr_) in unparse(x)) for x in ast.walk(m2))]
+                chk.decide(set(drops) >= set(MUTATORS), "C05.lists", W("%s.%s" % (cdef.name, meth.name)),
+                           "kept on the object: %s" % short(st_),
+                           why="%s is a list: after append / extend / item assignment / del the kept value (computed "
+                               "from the members it had) still answers - numpoly, denpoly and what is built on them "
+                               "describe the old bank, while calls use the current one; no mutator drops self.%s"
+                               % (cdef.name, attr_), node=st_)
     for cname, opname in (("CascadeFilter", "operator.mul"), ("ParallelFilter", "operator.add")):
         fr = repo.find(LF, cname + ".freq_response")
         red = _reduce_shape(mod, fr)
@@ -880,6 +908,16 @@ def run(chk, repo):
     integ = [n for n in pair_asg if n is not frac[0]][0]
     chk.decide(unparse(integ.value) == "[(int(k), v)]", "C05.linearize", W("LinearFilter.linearize"),
                "integer delay kept: " + short(integ), why="integer delays must keep their coefficient", node=integ)
+    # accumulating the taps: the key that is looked up is the key that is written
+    from ..core import accumulate_guards
+    lin_top = repo.find(LF, "LinearFilter.linearize")
+    for ifn, tested, stores_ in accumulate_guards(lin_top):
+        same = all(unparse(k_) == unparse(tested) for _, k_ in stores_)
+        chk.decide(same, "C05.linearize", W("LinearFilter.linearize"),
+                   "taps accumulated under '%s': %s" % (unparse(ifn.test), "; ".join(short(st_) for st_, _ in stores_)),
+                   why="the membership test is on another key than the one written (%s vs %s): two contributions to one "
+                       "integer tap overwrite each other instead of adding up"
+                       % (unparse(tested), ", ".join(sorted({unparse(k_) for _, k_ in stores_}))), node=ifn)
     # which arm for which delay, which store for which tap (decision tables)
     from ..dtable import Facts, walk
     term_loops = [n for n in ast.walk(lin) if isinstance(n, ast.For) and any(a is frac[0] for a in ast.walk(n))
